@@ -151,3 +151,5 @@ def _f03a(w):
 
 
 FINDING_REPLAYS = {"F-C03a": _f03a}
+
+import contracts.c06b  # noqa: E402,F401  (_prepare_template: the component's data layer, shared with C06)
